@@ -474,12 +474,25 @@ fn fileloads(out: &mut Out, r: &mut Rng, count: u64) {
                     "fresh" | "othermodel" => {
                         let mut c = EmuCfg::new(m_emu);
                         c.sound = true;
-                        c.ay = true;
+                        // (a 48K machine may be built without the AY: a 48K file that has one brings it along)
+                        c.ay = m_emu || r.chance(1, 2);
                         c.mouse = r.chance(1, 2);
                         c.build()
                     }
                     k => dirty_emulator(r, m_emu, k),
                 };
+                // 48K receivers: the host may have switched the AY at run time, or an earlier snapshot without one may have
+                // taken it away
+                let ayhist = if m_emu { 0 } else { r.below(4) };
+                match ayhist {
+                    1 => rx.set_ay_enabled(false),
+                    2 => rx.set_ay_enabled(true),
+                    3 => {
+                        let d0 = MachineDesc { m128: false, cpu: CpuDesc::default(), border: 0, latch: 0, banks: vec![vec![0u8; 16384]; 8] };
+                        let _ = rx.load_snapshot(Snapshot::Szx(VAsset::new(szx(&d0, &SzxOpts { ay: Some((0, [0u8; 16])), ay_flags: Some(0), ..Default::default() }))));
+                    }
+                    _ => {}
+                }
                 let before = machine_state(&mut rx);
                 let b2 = bytes.clone();
                 let is_sna = *enc == "sna";
@@ -503,7 +516,7 @@ fn fileloads(out: &mut Out, r: &mut Rng, count: u64) {
                                             "mouse": if is_sna { -1 } else { mouse.map(|m| m as i32).unwrap_or(-1) },
                                             "audible": audible && !is_sna && ay.is_some(),
                                             "quiet": !audible && !is_sna && ay.is_some()},
-                                    "outcome":outcome,"detail":detail,"is_sna":is_sna,"before":before});
+                                    "outcome":outcome,"detail":detail,"is_sna":is_sna,"before":before,"ayhist":ayhist});
                 if outcome == "ok" && m_emu == m_file {
                     let st = machine_state(&mut rx);
                     let mut want = d.banks.clone();
